@@ -67,11 +67,19 @@ func (s *streamWriter) Invoke(msgs []actor.Envelope) {
 
 	for i := 0; i < len(msgs); i++ {
 		var (
-			stream   = msgs[i].Msg.(*streamDeliver)
 			typeID   int32
 			senderID int32
 			targetID int32
 		)
+		// The writer is registered like any other process, so anybody (also a
+		// network peer) can address a message to it. Only the router's
+		// streamDeliver is meant for it; anything else is dropped instead of
+		// panicking on the inbox goroutine, which would take the node down.
+		stream, ok := msgs[i].Msg.(*streamDeliver)
+		if !ok {
+			slog.Error("stream writer", "err", fmt.Sprintf("unexpected message of type %T", msgs[i].Msg))
+			continue
+		}
 		// Only proto messages can be put on the wire; anything else is dropped
 		// here instead of panicking in the serializer's type assertion.
 		if _, ok := stream.msg.(proto.Message); !ok {
